@@ -285,7 +285,7 @@ func TestVerif_C16(t *testing.T) {
 			_ = a.iface.upf.addSliceInfo(&SliceInfo{name: "s", uplinkMbr: uint64(rng.Int63()), downlinkMbr: uint64(rng.Int63()), ulBurstBytes: uint64(rng.Int63()), dlBurstBytes: uint64(rng.Int63())})
 			c16Drain(res, a, map[string]interface{}{"phase": "slice meter", "slice": a.opts.SliceID, "default_tc": a.opts.DefaultTC})
 		}
-		if res.nViol() > 300 {
+		if res.giveUp(300) {
 			break
 		}
 	}
